@@ -356,7 +356,7 @@ func C09(p *ir.Program, r *report.R) {
 		var phiOK, condOK bool
 		for _, b := range jr.Blocks {
 			for _, in := range b.Instrs {
-				if ph, ok := in.(*ssa.Phi); ok && ph.Comment == "i" {
+				if ph, ok := in.(*ssa.Phi); ok && ir.LocalName(ph.Parent(), ph.Comment) == "i" {
 					var es []string
 					for _, e := range ph.Edges {
 						es = append(es, ir.Render(e))
